@@ -34,8 +34,8 @@ func scenarios() []scenario {
 	r := run.Rand("scenarios", 0)
 	add := func(sc scenario) {
 		sc.Seed = r.Int63()
-		if run.Quick() && !sc.Tamper && !sc.Plain {
-			sc.Short = 4000
+		if !sc.Tamper && !sc.Plain {
+			sc.Short = run.Pick(4000, 70000)
 		}
 		t := ""
 		if sc.Tamper {
@@ -50,14 +50,14 @@ func scenarios() []scenario {
 		sc.Name = fmt.Sprintf("%s%s-%s-%d", t, sc.Kind, sc.Transport, len(out))
 		out = append(out, sc)
 	}
-	long := run.Pick(70000, 330000) // packets per flow: 2 resp. 6 wraps of every flow
+	long := run.Pick(70000, 200000) // packets of flow 0: 2 resp. 4 wraps (the other flows: 1 resp. 2 wraps)
 	formats := [][]int{{2, 1}, {3}, {1, 1}, {1}, {2}, {1, 2}}
 	pick := func() []int { return formats[r.Intn(len(formats))] }
 	joiners := func() []int { // after the 1st, 2nd (and later) wrap of flow 0
 		if run.Quick() {
 			return []int{3000 + r.Intn(20000), 66500 + r.Intn(2000)}
 		}
-		return []int{3000 + r.Intn(20000), 66500 + r.Intn(2000), 140000 + r.Intn(40000), 270000 + r.Intn(40000)}
+		return []int{3000 + r.Intn(20000), 66500 + r.Intn(2000), 133000 + r.Intn(30000)}
 	}
 	// positive control of the cleartext monitor
 	add(scenario{Kind: "play", Transport: "tcp", Plain: true, Formats: []int{1}, Packets: 1500})
@@ -77,7 +77,7 @@ func scenarios() []scenario {
 	}
 	if !run.Quick() {
 		for _, tr := range []string{"udp", "tcp"} {
-			for i := 0; i < 2; i++ {
+			for i := 0; i < 1; i++ {
 				add(scenario{Kind: "play", Transport: tr, Formats: pick(), Packets: long, Joiners: joiners()})
 				add(scenario{Kind: "record", Transport: tr, Formats: pick(), Packets: long})
 			}
@@ -175,7 +175,7 @@ func main() {
 	}
 	run.ReportRaces()
 	run.Assume("a reader's SETUP (roll-over counter snapshot in MIKEY) and the first packet it receives lie on the same side of a sequence-number wrap: writers hold back the ~96 packets before a wrap while a reader joins (RFC 3711 / MIKEY signal the ROC once; a receiver cannot synchronise otherwise)")
-	run.Assume("UDP: in-order subsequence; every receiver must still receive sentinel packets after the load (a receiver whose SRTP context lost synchronisation would not); tamper scenarios allow 2% loss of untampered UDP packets")
+	run.Assume("UDP: in-order subsequence; every receiver must still receive sentinel packets after the load (a receiver whose SRTP context lost synchronisation would not); tamper scenarios on UDP require the packets directly after an altered one to arrive (<= 10% missing) and at least half of the untampered packets overall; on TCP every untampered packet")
 	run.Assume("cleartext needles: 32-byte PRNG marker inside every RTP payload >= 57 bytes, the 8-byte 'VRF1'+run prefix of every payload, 32-byte marker of RTCP APP packets; a plain (non-TLS) control session proves the monitor finds them")
-	run.Finish(evals.Load(), "scenarios = {play, record, back channel} x {udp, tcp, multicast(play)} under RTSPS+SRTP with 1..3 formats per media, flows of consecutive sequence numbers starting a few hundred before 65535 and long enough to wrap 2 (quick) / 6 (thorough) times, late joiners after 1..n wraps, RTCP APP packets; tamper scenarios alter 1/6 of the inbound SRTP packets and 1/3 of the SRTCP APP packets at a PRNG position of each class (header seq / header other / payload / auth tag; SRTCP header / payload / index / tag), one bit or one byte; downgrade probes = raw SETUPs (SAVP on plain server with and without KeyMgmt, AVP UDP / multicast on TLS server, play and record) and a client redirected from rtsps to rtsp (301/302/303/305); distinct_nontrivial = distinct (kind, transport, formats, joiners) scenarios + distinct probes")
+	run.Finish(evals.Load(), "scenarios = {play, record, back channel} x {udp, tcp, multicast(play)} under RTSPS+SRTP with 1..3 formats per media, flows of consecutive sequence numbers starting a few hundred before 65535 and long enough to wrap 2 (quick) / 4 (thorough) times, late joiners after 1..n wraps, RTCP APP packets; tamper scenarios alter 1/6 of the inbound SRTP packets and 1/3 of the SRTCP APP packets at a PRNG position of each class (header seq / header other / payload / auth tag; SRTCP header / payload / index / tag), one bit or one byte; downgrade probes = raw SETUPs (SAVP on plain server with and without KeyMgmt, AVP UDP / multicast on TLS server, play and record) and a client redirected from rtsps to rtsp (301/302/303/305); distinct_nontrivial = distinct (kind, transport, formats, joiners) scenarios + distinct probes")
 }
